@@ -12,6 +12,8 @@ import struct
 
 import yaml
 
+import c12_rawdb as R
+
 # ------------------------------------------------------------------ small helpers
 
 
@@ -303,6 +305,68 @@ class Area:
 
     def finish_layout(self, lay):
         pass
+
+    # -- the register map: what the RAW database files say (c12_rawdb - no SPSDK database code) / what the real object exposes
+    def raw_parts(self):
+        """[(part name, name of the register file as the merged raw features give it, grouped_registers)]."""
+        bk = self.base_key()
+        return [("", str(R.value(self.family, self.rev, self.feature, bk + ["reg_spec"])), R.value(self.family, self.rev, self.feature, bk + ["grouped_registers"], []))]
+
+    def file_map(self, path, grouped):
+        """Names, offsets (+ OTP indexes of fuse maps), widths of every register and group of one register file, in canonical order."""
+        lay = layout_from_files(path, grouped)
+        otp = R.otp_indexes(path) if self.kind == "fuses" else {}
+        res = []
+        for r in lay["regs"]:
+            leaf = r["kind"] == "leaf"
+            res.append(R.entry(r["name"], r["off"] if (leaf or self.has_binary) else -1, r["width"], otp.get(r["uid"], -1) if leaf else -1))
+        return R.canon(res)
+
+    def map_registers(self, obj):
+        """[register file object of the real area] - one per part."""
+        return [self.registers(obj)]
+
+    def observed_maps(self, obj):
+        out = []
+        for regs in self.map_registers(obj):
+            res = []
+            for x in regs:
+                subs = list(getattr(x, "sub_regs", None) or [])
+                otp = getattr(x, "otp_index", None)
+                res.append(R.entry(x.name, x.offset if (not subs or self.has_binary) else -1, x.width, -1 if (otp is None or subs) else otp))
+                for y in subs:
+                    otp = getattr(y, "otp_index", None)
+                    res.append(R.entry(y.name, y.offset, y.width, -1 if otp is None else otp))
+            out.append(R.canon(res))
+        return out
+
+    def map_facts(self, obj):
+        """The `parts` of the Layout event: per part the alias chain as the raw database.yaml files name it (device folder first), which folders hold
+        a file of the name the feature gives (f: index into the table of distinct files, 0 = none), the register map of every such file, and the map
+        the real object exposes.  WHICH file is prescribed and whether the object agrees with it is decided by TLC (clause RegisterMap)."""
+        parts, notes = [], []
+        try:
+            raw = self.raw_parts()
+        except R.RawError as e:
+            raw, notes = [], [f"raw walk: {e}"]
+        try:
+            obs = self.observed_maps(obj) if obj is not None else None
+        except Exception as e:  # noqa: BLE001 - an object that cannot show its registers has no map (the spec decides)
+            obs, notes = None, notes + [f"observed map: {type(e).__name__}: {e}"[:200]]
+        for k, (pname, fname, grouped) in enumerate(raw):
+            chain, files, idx = [], [], {}
+            try:
+                for dev, path in R.chain_files(self.family, fname):
+                    if path is not None and path not in idx:
+                        files.append(self.file_map(path, grouped))
+                        idx[path] = len(files)
+                    chain.append({"d": dev, "f": idx.get(path, 0)})
+            except R.RawError as e:
+                chain, files, notes = [], [], notes + [f"raw walk: {e}"]
+            parts.append({"name": pname, "file": fname, "chain": chain, "files": files, "obs": (obs[k] if obs is not None and k < len(obs) else [])})
+        if not parts:
+            parts.append({"name": "", "file": "", "chain": [], "files": [], "obs": (obs[0] if obs else [])})
+        return parts, notes
 
     # -- real side (overridden)
     def new(self):
@@ -630,6 +694,15 @@ class Xmcd(Area):
                 lay["regs"][c1 - 1]["cond"] = {"c": c0, "f": names.index("optionSize") + 1, "op": "ne", "k": 0}
         return lay
 
+    def raw_parts(self):
+        mt, ct = self.sub.split("/")
+        return [("header", str(R.value(self.family, self.rev, self.feature, ["header", "reg_spec"])), R.value(self.family, self.rev, self.feature, ["header", "grouped_registers"], [])),
+                ("block", str(R.value(self.family, self.rev, self.feature, ["mem_types", mt, ct, "reg_spec"])),
+                 R.value(self.family, self.rev, self.feature, ["mem_types", mt, ct, "grouped_registers"], []))]
+
+    def map_registers(self, obj):
+        return [obj.header.registers, obj.config_block.registers]
+
     def new(self):
         from spsdk.image.xmcd.xmcd import XMCD
 
@@ -709,6 +782,21 @@ class Tz(Area):
                          "cond": {"c": 0, "f": 0, "op": "", "k": 0}, "altw": [], "hexstr": False})
         return {"regs": regs, "notes": [], "by_uid": {r["uid"]: i for i, r in enumerate(regs, 1)}, "files": [path], "kind": self.kind, "hasbin": True,
                 "size": 4 * len(regs), "seal": []}
+
+    def raw_parts(self):
+        return [("", str(R.value(self.family, self.rev, self.feature, ["reg_spec"])), [])]
+
+    def file_map(self, path, grouped):
+        with open(path, "r", encoding="utf-8") as f:
+            text = f.read()
+        try:
+            presets = json.loads(text)
+        except json.JSONDecodeError:
+            presets = yaml.safe_load(text)
+        return R.canon([R.entry(name, 4 * i, 32) for i, name in enumerate(presets)])
+
+    def observed_maps(self, obj):
+        return [R.canon([R.entry(name, 4 * i, 32) for i, name in enumerate(obj.presets)])]
 
     def new(self):
         from spsdk.image.trustzone import TrustZone
